@@ -243,3 +243,22 @@ MANIFEST_TEXT["C10"] = dict(
     text="The monitor compares route() with displayRoute() for every connector of scenes constructed so that cheapest routes share corridors: end points must be bit-identical, nudging may not add bends, checkpoints must stay on the route, separated neighbours must respect the (reduced) distance, and remaining overlaps are classified against the corridor width. Held on the executions observed except for the recorded findings F6, F30, F31, which are matched by signature.",
     note="Overlaps that survive nudging are a recorded finding (F30) in every option combination, so clause (a) contributes evidence (counts) rather than alarms; the endpoint, bend-count, checkpoint and separation-distance clauses alarm.",
 )
+
+CHECKS["C11"] = dict(
+    level="exploration",
+    rule=("cases = scenes of 2-7 rectangles each carrying 1-2 pin classes with 1-4 pins (proportional / absolute offsets, border and interior positions, inside offsets, automatic and "
+          "explicit direction masks, default and explicit exclusivity, connection costs), 0-2 junctions, 1-8 connectors attached to pin classes (within exclusive capacity), junctions "
+          "or free points, 0-3 checkpoints; then 0-4 transactions moving / resizing shapes; both routing modes. The monitor holds every pin it created and re-derives its position from "
+          "the documented offset rule. non-trivial = a connector uses a class with >=2 pins, or has checkpoints"),
+    workloads=[dict(harness="c11_pins", mode="pins", quick=12000, thorough=400000, watchdog=120, san_thorough=6000)],
+    min_nontrivial=dict(quick=3000, thorough=40000),
+    max_inconclusive=0.05,
+    require_obs=["routes_checked", "pin_ends_checked", "pin_directions_checked", "junction_ends_checked", "checkpoints_checked", "moves", "resizes"],
+    assumptions=["checkpoint order is judged on route() for orthogonal connectors (what nudging does to checkpoints is C10's business) and on displayRoute() for polyline ones",
+                 "numbers of connectors per exclusive pin class stay within capacity ('provided a free pin exists')"],
+)
+MANIFEST_TEXT["C11"] = dict(
+    technique="runtime monitor over inputs and move/resize histories: pin positions re-derived from the documented offset rule, route ends matched to pins/junctions, exit directions, exclusivity counts, checkpoint order",
+    text="The harness keeps every ShapeConnectionPin it created and, after each transaction, checks from the API boundary that each attached route end sits exactly on a pin of its class (whose position equals the harness' own evaluation of the offset rule for the shape's current rectangle), leaves in a permitted direction, that exclusive pins are not shared, junction ends sit on the junction and checkpoints are visited in order. Held on the executions observed.",
+    note="Trusts the harness' reading of the documented offset/direction rules.",
+)
